@@ -13,3 +13,8 @@ mod handler;
 mod quit;
 mod r#return;
 mod worker;
+
+/// Verification-only access to the batching half of [`worker`] (enabled only under the Kani compiler).
+#[cfg(kani)]
+#[doc(hidden)]
+pub use worker::throttle_collect;
